@@ -13,49 +13,69 @@ Definition lookup_failed (cfg : config) (st : state) (k : key) : Prop :=
    (2) a fresh entry that cannot be rebuilt because a record does not parse:
    the parse error is returned in its place; (3) the cascade itself failed on
    such an entry (only while T1 says strip_failure_is_miss = false). *)
-Definition served_fresh cfg st k now r : Prop :=
+Definition served_fresh cfg st k now qc r : Prop :=
   exists k0 t0 u0 x val,
     In (k0, t0, u0) (s_log st) /\ compat k0 k x u0 /\
     validity cfg (xform_resp x u0) = Ok val /\
     expired (now - t0) val = false /\
-    (decrement_ttl (xform_resp x u0) (cast_secs (now - t0)) = Ok r \/
+    (decrement_ttl (xform_resp x u0) (cast_secs (now - t0)) qc = Ok r \/
      (r = RErr parse_error /\ resp_has_bad (xform_resp x u0) = true)).
 
-Lemma served_master cfg st k op now delay u st' r :
-  inv cfg st -> step cfg st (EQuery k op now delay u) = Ok (st', OServed r) ->
+Lemma start_served cfg st k op qc now st' r :
+  inv cfg st -> start cfg st k op qc now = Ok (st', SServed r) ->
   op = 0 /\ k_class k = class_in /\
-  (served_fresh cfg st k now r \/
+  (served_fresh cfg st k now qc r \/
    (lookup_failed cfg st k /\ exists e, r = RErr e /\ fail_post (s_log st) k e)).
 Proof.
-  intros I. cbn [step].
+  intros I. unfold start.
   destruct (negb ((op =? 0) && (k_class k =? class_in))) eqn:B; [discriminate|].
   apply negb_false_iff, andb_true_iff in B. destruct B as [B1 B2].
   apply N.eqb_eq in B1, B2. intros S; split; [exact B1|]; split; [exact B2|]; revert S.
   destruct (cache_lookup cfg k (s_cache st)) as [[c1 res]| | |] eqn:LK; cbn [bind]; try discriminate.
   destruct (lookup_rd_do_ad_inv cfg _ k _ _ I LK) as [_ P]; cbn [snd] in P.
-  assert (Hno : match validity cfg u with
-       | Ok val => do c2 <- cache_insert cfg k (mkValue (now + delay) val u) c1;
-                   Ok (mkState c2 ((k, now + delay, u) :: s_log st), OForwarded)
-       | Err e => Ok (mkState c1 ((k, now + delay, u) :: s_log st), OFwdErr e)
-       | Panic p => Panic p | OutOfFuel => OutOfFuel end <> Ok (st', OServed r)).
-  { destruct (validity cfg u); try discriminate.
-    destruct (cache_insert cfg k _ c1); cbn [bind]; discriminate. }
-  destruct res as [v| |e].
+  destruct res as [v| |e]; [|discriminate|].
   - unfold get_response, elapsed_ms.
-    destruct (expired (now - v_created v) (v_valid v)) eqn:E; [intros H0; destruct (Hno H0)|].
+    destruct (expired (now - v_created v) (v_valid v)) eqn:E; [discriminate|].
     destruct P as (k0 & t0 & u0 & x & Hin & Hc & Hr & Hk & Hv). subst t0.
     assert (Hb : forall m, v_resp v = RMsg m -> forall y, counted m y ->
                  cast_secs (now - v_created v) <= r_ttl y).
     { intros m Hm y Hy. rewrite Hm in Hv. destruct (validity_msg_bound _ _ _ Hv) as [Bt _].
       specialize (Bt _ Hy). apply not_expired_le in E.
       pose proof (cast_secs_le (now - v_created v)). lia. }
-    destruct (decrement_cases _ _ Hb) as [[D _]|[D Bd]]; rewrite D; intros [= _ <-]; left;
+    destruct (decrement_cases _ _ qc Hb) as [[D _]|[D Bd]]; rewrite D; intros [= _ <-]; left;
       exists k0, (v_created v), u0, x, (v_valid v); rewrite <- Hr;
       (split; [exact Hin|]); (split; [exact Hk|]); (split; [exact Hv|]); (split; [exact E|]).
     + left; exact D.
     + right; auto.
-  - intros H0; destruct (Hno H0).
   - intros [= _ <-]. right. split; [exists c1, e; exact LK|]. exists e. auto.
+Qed.
+
+(* a request event: its key, the time its get_response runs, its spelling of the name *)
+Definition request_of (ev : event) : option (key * N * N) :=
+  match ev with
+  | EQuery k _ qc now _ _ | EStart k _ qc now => Some (k, now, qc)
+  | _ => None
+  end.
+
+Lemma finish_not_served cfg st k t u st' r : finish cfg st k t u <> Ok (st', OServed r).
+Proof.
+  unfold finish. destruct (validity cfg u); try discriminate.
+  destruct (cache_insert cfg k _ (s_cache st)); cbn [bind]; discriminate.
+Qed.
+
+Lemma served_master cfg st ev k now qc st' r :
+  inv cfg st -> request_of ev = Some (k, now, qc) -> step cfg st ev = Ok (st', OServed r) ->
+  served_fresh cfg st k now qc r \/
+  (lookup_failed cfg st k /\ exists e, r = RErr e /\ fail_post (s_log st) k e).
+Proof.
+  intros I Q. destruct ev as [k' op qc' now' delay u|k' op qc' now'| |]; try discriminate;
+    injection Q as -> -> ->; cbn [step];
+    destruct (start cfg st k op qc now) as [[st1 sr]| | |] eqn:S; cbn [bind]; try discriminate.
+  - destruct sr as [s| |]; try discriminate.
+    + intros [= <- <-]. apply (start_served _ _ _ _ _ _ _ _ I S).
+    + intros F. destruct (finish_not_served _ _ _ _ _ _ _ F).
+  - destruct sr as [s| |]; try discriminate.
+    intros [= <- <-]. apply (start_served _ _ _ _ _ _ _ _ I S).
 Qed.
 
 Lemma store_invariant cfg evs st os : run cfg state_init evs = Ok (st, os) -> inv cfg st.
@@ -106,7 +126,7 @@ Proof.
     apply in_map. destruct strip; [apply filter_In; tauto|exact H].
 Qed.
 
-Lemma derives_aged x a u0 : derives u0 (aged a (xform_resp x u0)).
+Lemma derives_aged x a qc u0 : derives u0 (aged a qc (xform_resp x u0)).
 Proof.
   destruct u0 as [m0|e]; cbn; [|reflexivity].
   repeat split; try reflexivity.
@@ -122,7 +142,7 @@ Qed.
 
 Lemma run_init_logged cfg evs st os e :
   run cfg state_init evs = Ok (st, os) -> In e (s_log st) -> logged evs os e.
-Proof. intros R H. destruct (run_log cfg evs _ _ _ e R H) as [[]|L]; exact L. Qed.
+Proof. intros R H. destruct (run_log cfg evs _ _ _ e (inv_init cfg) R H) as [[]|L]; exact L. Qed.
 
 Lemma bad_source x u0 : resp_has_bad (xform_resp x u0) = true ->
   exists m0, u0 = RMsg m0 /\ has_bad m0 = true.
@@ -133,12 +153,13 @@ Qed.
 
 (* the common core: whatever is answered without upstream comes from a logged
    upstream exchange for the same question with compatible flags *)
-Lemma served_source cfg st k op now delay u st' r :
-  inv cfg st -> step cfg st (EQuery k op now delay u) = Ok (st', OServed r) ->
+Lemma served_source cfg st ev k now qc st' r :
+  request_of ev = Some (k, now, qc) ->
+  inv cfg st -> step cfg st ev = Ok (st', OServed r) ->
   exists k0 t0 u0,
     In (k0, t0, u0) (s_log st) /\ same_question k0 k /\ flags_compatible k0 k /\ derives u0 r.
 Proof.
-  intros I S. destruct (served_master _ _ _ _ _ _ _ _ _ I S) as (_ & _ & [F|[_ (e & -> & F)]]).
+  intros Hq I S. destruct (served_master _ _ _ _ _ _ _ _ I Hq S) as [F|[_ (e & -> & F)]].
   - destruct F as (k0 & t0 & u0 & x & val & Hin & Hk & _ & _ & [D|[-> B]]);
       exists k0, t0, u0; (split; [exact Hin|]);
       destruct (compat_question _ _ _ _ Hk) as [Q Fl]; (split; [exact Q|]); (split; [exact Fl|]).
@@ -148,15 +169,29 @@ Proof.
     exists k0, t0, (RMsg m0). cbn. auto.
 Qed.
 
-Lemma served_was_received cfg evs st os k op now delay u st' r :
+Lemma served_was_received cfg evs st os ev k now qc st' r :
+  request_of ev = Some (k, now, qc) ->
   run cfg state_init evs = Ok (st, os) ->
-  step cfg st (EQuery k op now delay u) = Ok (st', OServed r) ->
+  step cfg st ev = Ok (st', OServed r) ->
   exists k0 t0 u0,
     logged evs os (k0, t0, u0) /\ same_question k0 k /\ flags_compatible k0 k /\ derives u0 r.
 Proof.
-  intros R S. pose proof (run_inv cfg evs _ _ _ (inv_init cfg) R) as I.
-  destruct (served_source _ _ _ _ _ _ _ _ _ I S) as (k0 & t0 & u0 & Hin & Q & F & D).
+  intros Hq R S. pose proof (run_inv cfg evs _ _ _ (inv_init cfg) R) as I.
+  destruct (served_source _ _ _ _ _ _ _ _ Hq I S) as (k0 & t0 & u0 & Hin & Q & F & D).
   exists k0, t0, u0. split; [eapply run_init_logged; eassumption|auto].
+Qed.
+
+(* the served question carries the name as the current request spelled it *)
+Lemma served_question_case cfg st ev k now qc st' m :
+  request_of ev = Some (k, now, qc) ->
+  inv cfg st -> step cfg st ev = Ok (st', OServed (RMsg m)) -> m_q m <> None -> m_qcase m = qc.
+Proof.
+  intros Hq I S Hn. destruct (served_master _ _ _ _ _ _ _ _ I Hq S) as [F|[_ (e & E & _)]]; [|discriminate E].
+  destruct F as (k0 & t0 & u0 & x & val & _ & _ & _ & _ & [D|[E _]]); [|discriminate E].
+  apply decrement_ok in D. destruct D as (E & _).
+  destruct u0 as [m0|e0]; [|discriminate E]. injection E as ->.
+  cbn [aged_msg m_q m_qcase xform] in *. unfold restore_case. cbn [xform m_q].
+  destruct (m_q m0); [reflexivity|congruence].
 Qed.
 
 (* ---------- 2. ttl_aged_never_increased ------------------------------------------------- *)
@@ -189,15 +224,16 @@ Proof.
   split; [apply cast_secs_small; lia|assumption].
 Qed.
 
-Lemma ttl_aged cfg evs st os k op now delay u st' r :
+Lemma ttl_aged cfg evs st os ev k now qc st' r :
+  request_of ev = Some (k, now, qc) ->
   cfg_ok cfg ->
   run cfg state_init evs = Ok (st, os) ->
-  step cfg st (EQuery k op now delay u) = Ok (st', OServed r) ->
+  step cfg st ev = Ok (st', OServed r) ->
   exists k0 t0 u0,
     logged evs os (k0, t0, u0) /\ same_question k0 k /\ resp_aged ((now - t0) / 1000) u0 r.
 Proof.
-  intros C R S. pose proof (run_inv cfg evs _ _ _ (inv_init cfg) R) as I.
-  destruct (served_master _ _ _ _ _ _ _ _ _ I S) as (_ & _ & [F|[_ (e & -> & F)]]).
+  intros Hq C R S. pose proof (run_inv cfg evs _ _ _ (inv_init cfg) R) as I.
+  destruct (served_master _ _ _ _ _ _ _ _ I Hq S) as [F|[_ (e & -> & F)]].
   2:{ destruct F as (_ & -> & k0 & t0 & m0 & Hin & Q & _ & B).
       exists k0, t0, (RMsg m0). split; [eapply run_init_logged; eassumption|]. cbn. auto. }
   destruct F as (k0 & t0 & u0 & x & val & Hin & Hk & V & E & [D|[-> B]]);
@@ -226,8 +262,8 @@ Proof.
 Qed.
 
 (* ---------- 3. never_stale ----------------------------------------------------------------- *)
-Lemma expired_entry_not_served v now :
-  v_valid v * 1000 < now - v_created v -> get_response v now = None.
+Lemma expired_entry_not_served v now qc :
+  v_valid v * 1000 < now - v_created v -> get_response v now qc = None.
 Proof. intros H. unfold get_response, elapsed_ms. rewrite (expired_gt _ _ H). reflexivity. Qed.
 
 Lemma scan_auth_map f qc l : (forall r, r_type (f r) = r_type r /\ r_class (f r) = r_class r) ->
@@ -241,10 +277,10 @@ Lemma existsb_map' {A B} (f : B -> bool) (g : A -> B) l :
   existsb f (map g l) = existsb (fun x => f (g x)) l.
 Proof. induction l as [|a t IH]; cbn; [reflexivity|rewrite IH; reflexivity]. Qed.
 
-Lemma classify_aged a m : classify_no_error (aged_msg a m) = classify_no_error m.
+Lemma classify_aged a qc m : classify_no_error (aged_msg a qc m) = classify_no_error m.
 Proof.
   unfold classify_no_error; cbn [aged_msg m_q m_an m_ns].
-  destruct (m_q m) as [[qt qc]|]; [|reflexivity].
+  destruct (m_q m) as [[qt qc0]|]; [|reflexivity].
   rewrite existsb_map'. cbn [age r_type r_class].
   rewrite (scan_auth_map (age a)); [reflexivity|intros r; split; reflexivity].
 Qed.
@@ -291,17 +327,18 @@ Qed.
 (* The known class: the cascade failed while rewriting an entry.  Its age is
    never looked at, so such a parse error can be handed out long after the
    entry's validity has passed (never_stale_refuted). *)
-Lemma never_stale cfg evs st os k op now delay u st' r :
+Lemma never_stale cfg evs st os ev k now qc st' r :
+  request_of ev = Some (k, now, qc) ->
   cfg_ok cfg ->
   run cfg state_init evs = Ok (st, os) ->
   ~ lookup_failed cfg st k ->
-  step cfg st (EQuery k op now delay u) = Ok (st', OServed r) ->
+  step cfg st ev = Ok (st', OServed r) ->
   exists k0 t0 u0,
     logged evs os (k0, t0, u0) /\ same_question k0 k /\ derives u0 r /\
     fresh_by_class cfg (now - t0) u0 r.
 Proof.
-  intros C R NF S. pose proof (run_inv cfg evs _ _ _ (inv_init cfg) R) as I.
-  destruct (served_master _ _ _ _ _ _ _ _ _ I S) as (_ & _ & [F|[LF _]]); [|destruct (NF LF)].
+  intros Hq C R NF S. pose proof (run_inv cfg evs _ _ _ (inv_init cfg) R) as I.
+  destruct (served_master _ _ _ _ _ _ _ _ I Hq S) as [F|[LF _]]; [|destruct (NF LF)].
   destruct F as (k0 & t0 & u0 & x & val & Hin & Hk & V & E & [D|[-> B]]);
     exists k0, t0, u0; (split; [eapply run_init_logged; eassumption|]);
     (split; [apply (compat_question _ _ _ _ Hk)|]).
@@ -315,7 +352,7 @@ Proof.
     cbn [xform_resp map_resp] in V.
     rewrite classify_aged. cbn [aged_msg m_rcode m_tc].
     destruct (validity_msg_bound _ _ _ V) as [Bt Bc].
-    assert (Hcnt : forall y, counted (aged_msg (e / 1000) (xform x m0)) y -> within e (r_ttl y + e / 1000)).
+    assert (Hcnt : forall y, counted (aged_msg (e / 1000) qc (xform x m0)) y -> within e (r_ttl y + e / 1000)).
     { intros y Hy. unfold within.
       assert (exists y0, counted (xform x m0) y0 /\ r_ttl y = r_ttl y0 - e / 1000) as (y0 & Hy0 & ->).
       { unfold counted in Hy; cbn [aged_msg m_an m_ns m_ar] in Hy.
@@ -355,15 +392,16 @@ Qed.
 (* the fix is in (T1): no premise left *)
 Lemma gen_strip_miss : strip_failure_is_miss = true. Proof. reflexivity. Qed.
 
-Lemma never_stale_unconditional cfg evs st os k op now delay u st' r :
+Lemma never_stale_unconditional cfg evs st os ev k now qc st' r :
+  request_of ev = Some (k, now, qc) ->
   cfg_ok cfg ->
   run cfg state_init evs = Ok (st, os) ->
-  step cfg st (EQuery k op now delay u) = Ok (st', OServed r) ->
+  step cfg st ev = Ok (st', OServed r) ->
   exists k0 t0 u0,
     logged evs os (k0, t0, u0) /\ same_question k0 k /\ derives u0 r /\
     fresh_by_class cfg (now - t0) u0 r.
 Proof.
-  intros C R S. apply (never_stale cfg evs st os k op now delay u st' r C R); [|exact S].
+  intros Hq C R S. apply (never_stale cfg evs st os ev k now qc st' r Hq C R); [|exact S].
   exact (lookup_failed_only_before_fix cfg evs st os k gen_strip_miss R).
 Qed.
 
@@ -371,11 +409,11 @@ Qed.
    60 s; a request without DO a million seconds later gets MessageParseError
    from the cache, upstream is not asked *)
 Definition witness_stale_bad : resp :=
-  RMsg (mkMsg 7 0 false false true false (Some (1, 1)) [mkRR 1 1 60 1 false; mkRR 1 1 60 2 true] [] [] false).
+  RMsg (mkMsg 7 0 false false true false (Some (1, 1)) 1 [mkRR 1 1 60 1 false; mkRR 1 1 60 2 true] [] [] false).
 Definition witness_stale : list event :=
-  [EQuery (key_of_request 1 1 1 true false false true) 0 0 0 witness_stale_bad].
+  [EQuery (key_of_request 1 1 1 true false false true) 0 1 0 0 witness_stale_bad].
 Definition witness_stale_query : event :=
-  EQuery (key_of_request 1 1 1 true false false false) 0 1000000000 0 (RErr 1).
+  EQuery (key_of_request 1 1 1 true false false false) 0 1 1000000000 0 (RErr 1).
 
 Lemma never_stale_refuted : strip_failure_is_miss = false ->
   validity config_default witness_stale_bad = Ok 60 /\
@@ -427,8 +465,8 @@ Definition no_question (u : resp) : Prop := exists m, u = RMsg m /\ m_q m = None
 
 Definition ev_ok (ev : event) : Prop :=
   match ev with
-  | EQuery _ _ _ _ u => classify_expects_question = true -> ~ no_question u
-  | EEvict _ => True
+  | EQuery _ _ _ _ _ u | EFinish _ _ u => classify_expects_question = true -> ~ no_question u
+  | _ => True
   end.
 
 Lemma validity_cases cfg u : (classify_expects_question = true -> ~ no_question u) ->
@@ -445,29 +483,39 @@ Proof.
   - destruct p as [[]|[]|]; cbn [bind]; eauto.
 Qed.
 
-Lemma step_total cfg st ev : inv cfg st -> ev_ok ev -> exists r, step cfg st ev = Ok r.
+Lemma start_total cfg st k op qc now : inv cfg st -> exists r, start cfg st k op qc now = Ok r.
 Proof.
-  intros I Hev. destruct ev as [k op now delay u|n]; cbn [step]; [|eauto].
+  intros I. unfold start.
   destruct (negb ((op =? 0) && (k_class k =? class_in))); [eauto|].
   destruct (lookup_total cfg _ k _ I) as [[c1 res] LK]. rewrite LK; cbn [bind].
   destruct (lookup_rd_do_ad_inv cfg _ k _ _ I LK) as [I1 P]; cbn [fst snd] in I1, P.
-  assert (Hfwd : exists r, match validity cfg u with
-       | Ok val => do c2 <- cache_insert cfg k (mkValue (now + delay) val u) c1;
-                   Ok (mkState c2 ((k, now + delay, u) :: s_log st), OForwarded)
-       | Err e => Ok (mkState c1 ((k, now + delay, u) :: s_log st), OFwdErr e)
-       | Panic p => Panic p | OutOfFuel => OutOfFuel end = Ok r).
-  { destruct (validity_cases cfg u Hev) as [[val V]|V]; rewrite V; [|eauto].
-    destruct (cache_insert_total cfg k (mkValue (now + delay) val u) c1) as [c2 ->]; [cbn; eauto|].
-    cbn [bind]. eauto. }
-  destruct res as [v| |e]; [|exact Hfwd|eauto].
+  destruct res as [v| |e]; [|eauto|eauto].
   unfold get_response, elapsed_ms.
-  destruct (expired (now - v_created v) (v_valid v)) eqn:E; [exact Hfwd|].
+  destruct (expired (now - v_created v) (v_valid v)) eqn:E; [eauto|].
   assert (Hb : forall m, v_resp v = RMsg m -> forall y, counted m y ->
                cast_secs (now - v_created v) <= r_ttl y).
   { intros m Hm y Hy. pose proof (prov_valid _ _ _ _ P) as V. rewrite Hm in V.
     destruct (validity_msg_bound _ _ _ V) as [Bt _]. specialize (Bt _ Hy).
     apply not_expired_le in E. pose proof (cast_secs_le (now - v_created v)). lia. }
-  destruct (decrement_cases _ _ Hb) as [[-> _]|[-> _]]; eauto.
+  destruct (decrement_cases _ _ qc Hb) as [[-> _]|[-> _]]; eauto.
+Qed.
+
+Lemma finish_total cfg st k t u :
+  (classify_expects_question = true -> ~ no_question u) -> exists r, finish cfg st k t u = Ok r.
+Proof.
+  intros Hev. unfold finish.
+  destruct (validity_cases cfg u Hev) as [[val V]|V]; rewrite V; [|eauto].
+  destruct (cache_insert_total cfg k (mkValue t val u) (s_cache st)) as [c2 ->]; [cbn; eauto|].
+  cbn [bind]. eauto.
+Qed.
+
+Lemma step_total cfg st ev : inv cfg st -> ev_ok ev -> exists r, step cfg st ev = Ok r.
+Proof.
+  intros I Hev. destruct ev as [k op qc now delay u|k op qc now|k t u|n]; cbn [step]; [| | |eauto].
+  - destruct (start_total cfg st k op qc now I) as [[st1 sr] S]. rewrite S; cbn [bind].
+    destruct sr; [eauto| |eauto]. apply finish_total. exact Hev.
+  - destruct (start_total cfg st k op qc now I) as [[st1 sr] S]. rewrite S; cbn [bind]. eauto.
+  - apply finish_total. exact Hev.
 Qed.
 
 Lemma run_total cfg evs : forall st, inv cfg st -> Forall ev_ok evs ->
@@ -491,12 +539,12 @@ Lemma gen_no_expect : classify_expects_question = false. Proof. reflexivity. Qed
 Lemma no_panic_unconditional cfg evs : exists os, c20_run cfg evs = Ok os.
 Proof.
   apply no_panic_all_histories. apply Forall_forall. intros ev _.
-  destruct ev; cbn; [|exact Logic.I]. rewrite gen_no_expect. discriminate.
+  destruct ev; cbn; try exact Logic.I; rewrite gen_no_expect; discriminate.
 Qed.
 
 Definition witness_no_question : list event :=
-  [EQuery (mkKey 1 1 1 AdDo_None false true) 0 0 0
-     (RMsg (mkMsg 7 0 false false true false None [mkRR 1 1 60 7 false] [] [] false))].
+  [EQuery (mkKey 1 1 1 AdDo_None false true) 0 1 0 0
+     (RMsg (mkMsg 7 0 false false true false None 1 [mkRR 1 1 60 7 false] [] [] false))].
 
 Lemma no_panic_refuted : classify_expects_question = true ->
   ~ Forall ev_ok witness_no_question /\ c20_run config_default witness_no_question = Panic 1.
@@ -549,16 +597,17 @@ Qed.
 (* (a) whatever upstream does: an answer obtained for a DO request is stripped
    before it reaches a request without DO, and AD is cleared for a request
    with neither AD nor DO unless the very same kind of request obtained it *)
-Lemma no_dnssec_leak cfg evs st os k op now delay u st' r :
+Lemma no_dnssec_leak cfg evs st os ev k now qc st' r :
+  request_of ev = Some (k, now, qc) ->
   run cfg state_init evs = Ok (st, os) ->
-  step cfg st (EQuery k op now delay u) = Ok (st', OServed r) ->
+  step cfg st ev = Ok (st', OServed r) ->
   exists k0 t0 u0,
     logged evs os (k0, t0, u0) /\ same_question k0 k /\ flags_compatible k0 k /\ derives u0 r /\
     (k_addo k <> AdDo_Do -> k_addo k0 = AdDo_Do -> no_dnssec r) /\
     (k_addo k = AdDo_None -> k_addo k0 <> AdDo_None -> resp_ad r = false).
 Proof.
-  intros R S. pose proof (run_inv cfg evs _ _ _ (inv_init cfg) R) as I.
-  destruct (served_master _ _ _ _ _ _ _ _ _ I S) as (_ & _ & [F|[_ (e & -> & F)]]).
+  intros Hq R S. pose proof (run_inv cfg evs _ _ _ (inv_init cfg) R) as I.
+  destruct (served_master _ _ _ _ _ _ _ _ I Hq S) as [F|[_ (e & -> & F)]].
   2:{ destruct F as (_ & -> & k0 & t0 & m0 & Hin & Q & Fl & B).
       exists k0, t0, (RMsg m0). split; [eapply run_init_logged; eassumption|]. cbn. auto 10. }
   destruct F as (k0 & t0 & u0 & x & val & Hin & Hk & _ & _ & [D|[-> B]]);
@@ -579,13 +628,14 @@ Definition upstream_respects_flags (L : ulog) : Prop :=
   forall k0 t0 m0, In (k0, t0, RMsg m0) L ->
     (k_addo k0 <> AdDo_Do -> no_dnssec (RMsg m0)) /\ (k_addo k0 = AdDo_None -> m_ad m0 = false).
 
-Lemma no_leak_honest_upstream cfg evs st os k op now delay u st' r :
+Lemma no_leak_honest_upstream cfg evs st os ev k now qc st' r :
+  request_of ev = Some (k, now, qc) ->
   run cfg state_init evs = Ok (st, os) -> upstream_respects_flags (s_log st) ->
-  step cfg st (EQuery k op now delay u) = Ok (st', OServed r) ->
+  step cfg st ev = Ok (st', OServed r) ->
   (k_addo k <> AdDo_Do -> no_dnssec r) /\ (k_addo k = AdDo_None -> resp_ad r = false).
 Proof.
-  intros R W S. pose proof (run_inv cfg evs _ _ _ (inv_init cfg) R) as I.
-  destruct (served_master _ _ _ _ _ _ _ _ _ I S) as (_ & _ & [F|[_ (e & -> & _)]]);
+  intros Hq R W S. pose proof (run_inv cfg evs _ _ _ (inv_init cfg) R) as I.
+  destruct (served_master _ _ _ _ _ _ _ _ I Hq S) as [F|[_ (e & -> & _)]];
     [|split; intros; [exact Logic.I|reflexivity]].
   destruct F as (k0 & t0 & u0 & x & val & Hin & Hk & _ & _ & [D|[-> _]]);
     [|split; intros; [exact Logic.I|reflexivity]].
@@ -608,31 +658,32 @@ Proof.
 Qed.
 
 (* only QUERY / IN requests touch the cache *)
-Lemma bypass_untouched cfg st k op now delay u :
+Lemma bypass_untouched cfg st k op qc now delay u :
   op <> 0 \/ k_class k <> class_in ->
-  step cfg st (EQuery k op now delay u) = Ok (st, OBypass).
+  step cfg st (EQuery k op qc now delay u) = Ok (st, OBypass) /\
+  step cfg st (EStart k op qc now) = Ok (st, OBypass).
 Proof.
-  intros H. cbn [step].
-  destruct ((op =? 0) && (k_class k =? class_in)) eqn:E; [|reflexivity].
+  intros H. cbn [step]. unfold start.
+  destruct ((op =? 0) && (k_class k =? class_in)) eqn:E; [|split; reflexivity].
   apply andb_true_iff in E. destruct E as [E1 E2]. apply N.eqb_eq in E1, E2. tauto.
 Qed.
 
 Example ex_bypass :
   c20_run config_default
-    [EQuery (key_of_request 1 3 1 true false false false) 0 0 0 (RErr 1);
-     EQuery (key_of_request 1 1 1 true false false false) 4 0 0 (RErr 1);
-     EQuery (key_of_request 1 1 1 true false false false) 0 0 0 (RErr 1);
-     EQuery (key_of_request 1 1 1 true false false false) 0 1 0 (RErr 1)]
+    [EQuery (key_of_request 1 3 1 true false false false) 0 1 0 0 (RErr 1);
+     EQuery (key_of_request 1 1 1 true false false false) 4 1 0 0 (RErr 1);
+     EQuery (key_of_request 1 1 1 true false false false) 0 1 0 0 (RErr 1);
+     EQuery (key_of_request 1 1 1 true false false false) 0 1 1 0 (RErr 1)]
   = Ok [OBypass; OBypass; OForwarded; OServed (RErr 1)].
 Proof. vm_compute. reflexivity. Qed.
 
 (* ---------- 6. liveness at the boundary: `>` not `>=` ---------------------------------------------- *)
-Lemma boundary_served cfg st k now delay u v :
+Lemma boundary_served cfg st k qc now delay u v :
   inv cfg st -> k_class k = class_in -> cget k (s_cache st) = Some v ->
   now - v_created v = v_valid v * 1000 ->
-  exists st' r, step cfg st (EQuery k 0 now delay u) = Ok (st', OServed r).
+  exists st' r, step cfg st (EQuery k 0 qc now delay u) = Ok (st', OServed r).
 Proof.
-  intros I Hc G Hb. cbn [step]. rewrite Hc, !N.eqb_refl. cbn [andb negb].
+  intros I Hc G Hb. cbn [step]. unfold start. rewrite Hc, !N.eqb_refl. cbn [andb negb].
   unfold cache_lookup, cache_lookup_rd_do_ad, cache_lookup_do_ad, cache_lookup_ad. rewrite G.
   cbn [bind]. unfold get_response, elapsed_ms. rewrite Hb.
   assert (E : expired (v_valid v * 1000) (v_valid v) = false).
@@ -643,5 +694,5 @@ Proof.
   { intros m Hm x Hx. pose proof (prov_valid _ _ _ _ (I _ _ (cget_In _ _ _ G))) as V. rewrite Hm in V.
     destruct (validity_msg_bound _ _ _ V) as [Bt _]. specialize (Bt _ Hx).
     pose proof (cast_secs_le (v_valid v * 1000)). lia. }
-  destruct (decrement_cases _ _ Hd) as [[-> _]|[-> _]]; eauto.
+  destruct (decrement_cases _ _ qc Hd) as [[-> _]|[-> _]]; cbn [bind]; eauto.
 Qed.
